@@ -80,3 +80,16 @@ Proof. repeat split; reflexivity. Qed.
 From SymfcG Require Import ShapesBasis.
 Theorem c09_recorded_sources2_in_force : ShapesBasis_as_recorded = true.
 Proof. repeat split; reflexivity. Qed.
+
+(** Auxiliary code on this property's path is the recorded source (the accessors and base constructor of the first-order basis-set class and the first-order atomic index table; the CSR block container DataCSR and the block extraction of the eigen-solvers):
+    whole-function match, regenerated on every run. *)
+From SymfcG Require Import ShapesAuxO1 ShapesAuxEig.
+Theorem c09_recorded_sources3_in_force : ShapesAuxO1_as_recorded = true /\ ShapesAuxEig_as_recorded = true.
+Proof. repeat split; reflexivity. Qed.
+
+(** What the modules on this property's path consist of besides the function bodies is the recorded one: every signature with its
+    defaults and keyword-only arguments, decorators, class bases, method lists and module-level statements (imports, constants) --
+    regenerated on every run. *)
+From SymfcG Require Import SkelBasis SkelEig SkelIdx.
+Theorem c09_module_skeletons_in_force : SkelBasis_as_recorded = true /\ SkelEig_as_recorded = true /\ SkelIdx_as_recorded = true.
+Proof. repeat split; reflexivity. Qed.
